@@ -4,7 +4,7 @@
 
     Grammar (declarative): Events/Grammar.v [WF]; recogniser (executable): [wf], [wf_prefix].
     Emitter model: Events/Emitter.v. *)
-From NL Require Import Events.Grammar Events.GrammarProofs.
+From NL Require Import Events.Grammar Events.GrammarProofs Events.Emitter Events.EmitterProofs.
 Open Scope Z_scope.
 
 (** the executable recogniser decides exactly the grammar *)
@@ -23,6 +23,16 @@ Proof. exact prefix_sound. Qed.
 (** the per-trace automaton accepts exactly the per-trace language *)
 Theorem C09_trace_language : forall r t l, prun r t PNone l = Some PDone <-> Trace r t l.
 Proof. exact prun_Trace. Qed.
+
+(** the emitter: for EVERY list of structured actor programs and EVERY schedule (interleaving
+    of the actors' steps: taking a number from a shared counter, putting an event), if every
+    actor has finished the stream put on the queue is well formed ... *)
+Theorem C09_emitter_wf : forall r ps sched, finished r ps sched = true -> WF r (emitted r ps sched).
+Proof. exact emitter_wf. Qed.
+
+(** ... and at any earlier moment (a kill) it is accepted by the prefix recogniser *)
+Theorem C09_emitter_prefix : forall r ps sched, wf_prefix r (emitted r ps sched) = true.
+Proof. exact emitter_prefix. Qed.
 
 (** non-vacuity: two interleaved traces, a command loop with two prompts, stdout, numbers
     handed out across traces; a truncation of it; and three corrupted variants *)
@@ -50,7 +60,26 @@ Proof.
   vm_compute. repeat split; reflexivity.
 Qed.
 
+(** non-vacuity of the emitter theorem: two actors, the second actor's trace start put before the first's, every actor finishes *)
+Definition ex_progs : list prog :=
+  [mkProg 10 [ICall 5 7 None; IOut 4; ICall 5 7 (Some ((0, 9), [(0, 8)]))];
+   mkProg 11 [ICall 6 8 (Some ((0, 9), []))]].
+Definition ex_sched : list nat :=
+  [0; 1; 1; 0; 0; 1; 0; 1; 0; 0; 1; 1; 0; 1; 0; 0; 1; 1; 0; 0; 0; 0; 1; 0; 0; 0; 0; 1; 0; 1; 0; 1; 0]%nat.
+
+Example C09_example_emitter_nonvacuous :
+  finished 1 ex_progs ex_sched = true /\
+  emitted 1 ex_progs ex_sched =
+  [StartTrace 1 2 11; StartTrace 1 1 10; StartTraceCall 1 1 1 5 7; StartTraceCall 1 2 2 6 8;
+   EndTraceCall 1 1 1; WriteStdout 1 1 4; StartCmdloop 1 2 2; StartPrompt 1 2 2 1 0;
+   StartTraceCall 1 1 3 5 7; StartCmdloop 1 1 3; EndPrompt 1 2 2 1 9; EndCmdloop 1 2 2;
+   StartPrompt 1 1 3 2 0; EndPrompt 1 1 3 2 9; EndTraceCall 1 2 2; StartPrompt 1 1 3 3 0;
+   EndPrompt 1 1 3 3 8; EndCmdloop 1 1 3; EndTraceCall 1 1 3; EndTrace 1 2; EndTrace 1 1].
+Proof. vm_compute. split; reflexivity. Qed.
+
 Print Assumptions C09_recogniser_correct.
+Print Assumptions C09_emitter_wf.
+Print Assumptions C09_emitter_prefix.
 Print Assumptions C09_prefix_closed.
 Print Assumptions C09_prefix_sound.
 Print Assumptions C09_trace_language.
